@@ -60,7 +60,16 @@ Definition host_pwrite (H : host) (size : N) (append : bool) (off len : N) : N *
 (* an open handle: inode, HandleData.flags, access mode of the host fd, O_APPEND state of the host fd *)
 Record hdl := mk_hdl { hd_file : N; hd_flags : N; hd_acc : N; hd_append : bool }.
 Record state := mk_state { sizes : N -> N; slots : N -> option hdl }.
-Record cfg := mk_cfg { c_seal : bool; c_no_open : bool }.
+(* which of the proposed refusals (fixes/C18-seal-size-trunc-append.patch) the source tree contains; read
+   from the source by props/c18.py on every run and validated by the tie:
+     fx_open   : do_open refuses O_TRUNC with EPERM under seal_size
+     fx_create : create on an existing name refuses O_TRUNC with EPERM under seal_size
+     fx_append : write refuses a non-empty write whose flags carry O_APPEND with EPERM under seal_size *)
+Record fixes := mk_fixes { fx_open : bool; fx_create : bool; fx_append : bool }.
+Definition no_fixes : fixes := mk_fixes false false false.
+Definition all_fixes : fixes := mk_fixes true true true.
+
+Record cfg := mk_cfg { c_seal : bool; c_no_open : bool; c_fx : fixes }.
 
 Inductive req : Type :=
 | Open (slot file flags : N)
@@ -68,7 +77,7 @@ Inductive req : Type :=
 | Write (slot file off len wflags : N)
 | Fallocate (slot file mode off len : N)
 | Setattr (file : N) (with_size : bool) (newsize : N)
-| Release (slot : N).
+| Release (slot file : N).                    (* RELEASE of the handle on nodeid [file] *)
 
 Definition set_size (s : state) (f v : N) : state :=
   mk_state (fun g => if g =? f then v else sizes s g) (slots s).
@@ -112,10 +121,12 @@ Definition step (H : host) (C : cfg) (s : state) (r : req) : N * state :=
   match r with
   | Open slot file flags =>
     if c_no_open C then (ENOSYS, s)
+    else if fx_open (c_fx C) && c_seal C && has flags O_TRUNC then (EPERM, s)
     else (0, set_slot (open_effect s file flags) slot (Some (new_hdl file flags)))
   | Create slot file flags =>
     (* create_file_excl fails with EEXIST: error if O_EXCL, else open_inode(entry.inode, flags) *)
     if has flags O_EXCL then (EEXIST, s)
+    else if fx_create (c_fx C) && c_seal C && has flags O_TRUNC then (EPERM, s)
     else
       let s1 := open_effect s file flags in
       if c_no_open C then (0, s1) else (0, set_slot s1 slot (Some (new_hdl file flags)))
@@ -126,7 +137,8 @@ Definition step (H : host) (C : cfg) (s : state) (r : req) : N * state :=
       let h := check_fd_flags h0 wflags in
       let s1 := if c_no_open C then s else set_slot s slot (Some h) in
       let chk := if c_seal C then seal_size_check true (sizes s file) off len 0 else 0 in
-      if negb (chk =? 0) then (chk, s1)
+      if fx_append (c_fx C) && c_seal C && has wflags O_APPEND && negb (len =? 0) then (EPERM, s1)
+      else if negb (chk =? 0) then (chk, s1)
       else if len =? 0 then (0, s1)                     (* nothing to copy: no pwrite is issued *)
       else if hd_acc h =? 0 then                        (* fd not open for writing *)
         (if I64_MAX <? off then (EINVAL, s1) else (EBADF, s1))
@@ -147,10 +159,10 @@ Definition step (H : host) (C : cfg) (s : state) (r : req) : N * state :=
     else if with_size then
       (if ho_maxbytes H <? newsize then (EFBIG, s) else (0, set_size s file newsize))
     else (0, s)
-  | Release slot =>
+  | Release slot file =>
     if c_no_open C then (ENOSYS, s)
     else match slots s slot with
-         | Some _ => (0, set_slot s slot None)
+         | Some h => if hd_file h =? file then (0, set_slot s slot None) else (EBADF, s)   (* HandleMap::release checks the inode *)
          | None => (EBADF, s)
          end
   end.
